@@ -162,6 +162,7 @@ Equality of the per-module output between two different compilations is not comp
     grouping(m, ctx);
     imports(m, ctx);
     associated_imports(m, ctx);
+    qualified(m, ctx);
 }
 
 /// definitions are grouped back into modules by their own header's name
@@ -262,6 +263,36 @@ fn associated_imports(m: &Model, ctx: &mut Ctx) {
         }
     }
     ctx.floor("C12.assoc/callers", callers, 2);
+}
+
+/// C12.qualified: "module-qualified references resolve to that module". Every place of the rasn generator that renders
+/// a type reference (a DeclarationElsewhere binding `x`) goes through to_rust_qualified_type(x.module, x.identifier);
+/// a site that renders `x.identifier` with a bare name mangler drops the `Module.` qualifier the source wrote.
+fn qualified(m: &Model, ctx: &mut Ctx) {
+    let mut sites = 0;
+    for f in m.fns.iter().filter(|f| f.krate == "rasn-compiler" && f.module.starts_with("generator::rasn") && !f.module.contains("tests")) {
+        for mc in model::method_calls_in(&f.block) {
+            let name = mc.method.to_string();
+            let args: Vec<String> = mc.args.iter().map(|a| tok(a)).collect();
+            let ident_arg = args.iter().find(|a| a.starts_with('&') && a.ends_with(".identifier") && a[1..a.len() - ".identifier".len()].chars().all(|c| c.is_alphanumeric() || c == '_'));
+            let Some(ia) = ident_arg else { continue };
+            let x = ia[1..ia.len() - ".identifier".len()].to_string();
+            let line = model::line_of(syn::spanned::Spanned::span(&mc));
+            if name == "to_rust_qualified_type" {
+                sites += 1;
+                ctx.oblige("C12.qualified", &format!("{}:{}", f.name, x), true);
+                if args.first().map(|a| a.as_str()) != Some(&format!("{}.module.as_deref()", x)) {
+                    ctx.violate("C12.qualified", &format!("module-of-another-reference:{}", f.name), &f.file, line,
+                        &format!("{} renders the reference `{}` with the module `{}`: the qualifier must be the one written on that reference (`{}.module`)", f.name, x, args.first().cloned().unwrap_or_default(), x));
+                }
+            } else if name.starts_with("to_rust_") {
+                ctx.oblige("C12.qualified", &format!("{}:{}", f.name, x), true);
+                ctx.violate("C12.qualified", &format!("qualifier-dropped:{}", f.name), &f.file, line,
+                    &format!("{} renders the type reference `{}` with `{}(&{}.identifier)`: a reference written `Mod-B.Width` loses its module and resolves (or fails to resolve) in the current module instead of `super::mod_b::Width`; the sibling sites use to_rust_qualified_type({}.module.as_deref(), &{}.identifier)", f.name, x, name, x, x, x));
+            }
+        }
+    }
+    ctx.floor("C12.qualified/reference-rendering-sites", sites, 4);
 }
 
 fn imports(m: &Model, ctx: &mut Ctx) {
